@@ -702,7 +702,9 @@ func main() {
 			c.decoder().HandleWrite(ctx, msg)
 		}
 		if len(ctx.Writes) != 1 {
-			return step{Exc: "NOWRITE"}
+			// neither exactly one frame nor an exception: reported by the Go oracle below; for the model it is
+			// "some exception that is not the range error" (the model never predicts ERead for an encoder)
+			return step{Exc: "ERead", Msg: fmt.Sprintf("NOWRITE: the encoder performed %d writes and raised nothing", len(ctx.Writes))}
 		}
 		var out []byte
 		switch v := ctx.Writes[0].(type) {
@@ -729,6 +731,10 @@ func main() {
 		meta.Count("payload_len", hx.SizeBucket(n))
 		ecs = append(ecs, fmt.Sprintf("{| ec_id := %s; ec_codec := %s; ec_body := [%s]; ec_obs := %s |}", hx.Nat(len(ecs)), c.coq(), body.coq(), res.coq()))
 		meta.CaseIndex["e"+fmt.Sprint(len(ecs)-1)] = map[string]interface{}{"codec": c, "body_len": n, "carrier": carrier, "observed": res}
+		if strings.HasPrefix(res.Msg, "NOWRITE") {
+			meta.Violate(hx.Violation{Property: "C04", What: fmt.Sprintf("%s encoder given a payload of %d bytes (carrier %d) neither emitted one frame nor raised an exception: %s", c.Kind, n, carrier, res.Msg),
+				Signature: "encoder-silent", Replay: map[string]interface{}{"encode": map[string]interface{}{"codec": c, "body_len": n, "carrier": carrier}}})
+		}
 		// oracle: an emitted frame's header must agree with its body
 		if res.Frame && (c.Kind == "pp" || c.Kind == "lf") {
 			w := c.W
